@@ -222,7 +222,9 @@ func sync_runtime_notifyListAdd(l *notifyList) uint32 {
 func sync_runtime_notifyListWait(l *notifyList, t uint32) {
 	st := getNotifyState(l)
 	st.mu.Lock()
-	for latomic.LoadUint32(&l.notify) == t {
+	// Wait until ticket t is covered, i.e. until l.notify has moved past t
+	// (wrap-around safe comparison, as in the Go runtime).
+	for int32(latomic.LoadUint32(&l.notify)-t) <= 0 {
 		st.cond.Wait(&st.mu)
 	}
 	st.mu.Unlock()
@@ -243,7 +245,9 @@ func sync_runtime_notifyListNotifyOne(l *notifyList) {
 	st.mu.Lock()
 	if latomic.LoadUint32(&l.notify) != latomic.LoadUint32(&l.wait) {
 		latomic.AddUint32(&l.notify, 1)
-		st.cond.Signal()
+		// Every waiter sleeps on the same condition variable: wake them all so
+		// the one holding the covered ticket cannot be missed.
+		st.cond.Broadcast()
 	}
 	st.mu.Unlock()
 }
